@@ -290,7 +290,14 @@ def check_include_recursion(chk):
         for x in walk(pi["body"]):
             c = x.get("callee") or {}
             if c.get("name") in ("insert", "push_back", "emplace_back", "operator=", "assign", "merge") and nm and nm in gen.expr_text(x, 0, pi):
-                handed = True
+                # the *whole* chain has to be handed over (begin..end of the member, or the member itself): a parent-only
+                # link lets cycles of three files through
+                txt = gguard.opt_norm(gen.expr_text(x, 0, pi))
+                members = set(y.get("name") for y in walk(pi["body"]) if y.get("k") == "MemberExpr" and (y.get("base") or {}).get("k") == "CXXThisExpr")
+                for mname in members:
+                    whole = ("begin(%s)" % mname in txt and "end(%s)" % mname in txt) or re.search(r"[(,=]\s*%s\s*[),]" % re.escape(mname), txt)
+                    if whole and not re.search(r"%s\.(back|front)\(\)|%s\[" % (re.escape(mname), re.escape(mname)), txt):
+                        handed = True
         if len((n.get("init") or {}).get("args") or []) > 3:
             handed = True
     if guards and handed:
